@@ -12,6 +12,7 @@ VERIF = os.path.dirname(HARNESS)
 EVIDENCE = os.path.join(VERIF, "evidence")
 REPLAYS = os.path.join(VERIF, "replays")
 FINDINGS = os.path.join(VERIF, "known_findings.json")
+MAX_REPORTED = 25
 
 
 def load_findings():
@@ -32,6 +33,11 @@ class Check:
         self.findings = [f for f in load_findings() if f["property"] == pid and f.get("status") == "open"]
         self.samples = []
         self.notes = []
+        self.suppressed = 0       # unlisted violations beyond MAX_REPORTED (counted, not written out)
+        if os.path.isdir(REPLAYS):
+            for f in os.listdir(REPLAYS):
+                if f.startswith(pid + "-"):
+                    os.remove(os.path.join(REPLAYS, f))
 
     # -- violations ---------------------------------------------------------
     def _match(self, key: str, signature: str, ast=None):
@@ -57,6 +63,9 @@ class Check:
                 print("KNOWN-FINDING: property=%s %s [%s]" % (self.pid, f["what"], f["id"]))
             self.known[f["id"]] = self.known.get(f["id"], 0) + 1
             return False
+        if len(self.violations) >= MAX_REPORTED:
+            self.suppressed += 1
+            return True
         os.makedirs(REPLAYS, exist_ok=True)
         body = {"property": self.pid, "key": key, "signature": signature, "tier": self.tier, "seed": self.seed,
                 "detail": detail}
@@ -76,11 +85,13 @@ class Check:
         cov.setdefault("samples", self.samples[:5] or ["(no case explored)"])
         ev = {"property_id": self.pid, "tier": self.tier, "seed": self.seed, "level": self.level,
               "coverage": cov, "assumptions": assumptions or [], "wall_s": round(time.time() - self.t0, 2),
-              "violations": len(self.violations),
+              "violations": len(self.violations) + self.suppressed,
               "known_findings_matched": self.known, "notes": self.notes}
         with open(os.path.join(EVIDENCE, self.pid + ".json"), "w") as fh:
             json.dump(ev, fh, indent=1, default=_default)
-        n = len(self.violations)
+        n = len(self.violations) + self.suppressed
+        if self.suppressed:
+            print("(%d further unlisted violations not written out)" % self.suppressed)
         print("%s %s tier=%s seed=%d: %s (%d unlisted violation(s), %d known finding(s) matched) in %.0fs" % (
             self.pid, "FAIL" if n else "PASS", self.tier, self.seed,
             "property violated" if n else "property held on everything explored", n, len(self.known),
